@@ -123,15 +123,18 @@ def gen_slice(rng, n):
     return [b(), b(), step]
 
 
-def gen_name(rng, keys):
+def gen_name(rng, keys, toks=()):
     if keys and rng.random() < 0.6:
         return rng.choice(keys)
+    if toks and rng.random() < 0.3:
+        return rng.choice(toks)          # a token that is (usually) not a name
     return rng.choice(NAMES)
 
 
 def gen_op(rng, pp, r, attr_ok):
     n = len(r)
     keys = [str(k) for k in r.keys()]
+    strtoks = [t for t in r if isinstance(t, str) and t and not t.startswith("_")]
     v = lambda: gen_value(rng, pp, 1)
     k = rng.choices(
         ["getint", "getslice", "getname", "getattr", "get", "setint", "setslice", "setname", "delint", "delslice",
@@ -143,12 +146,12 @@ def gen_op(rng, pp, r, attr_ok):
     if k in ("getslice", "delslice"):
         return [k] + gen_slice(rng, n)
     if k in ("getname", "delname", "contains"):
-        return [k, gen_name(rng, keys)]
+        return [k, gen_name(rng, keys, strtoks)]
     if k == "getattr":
         nm = gen_name(rng, keys)
         return [k, nm] if attr_ok(nm) else ["getname", nm]
     if k == "get":
-        return [k, gen_name(rng, keys)] + ([v()] if rng.random() < 0.5 else [])
+        return [k, gen_name(rng, keys, strtoks)] + ([v()] if rng.random() < 0.5 else [])
     if k == "setint":
         return [k, gen_index(rng, n), v()]
     if k == "setslice":
@@ -165,7 +168,7 @@ def gen_op(rng, pp, r, attr_ok):
     if k == "popint":
         return [k, gen_index(rng, n)] + ([v()] if rng.random() < 0.3 else [])
     if k == "popname":
-        op = [k, gen_name(rng, keys)]
+        op = [k, gen_name(rng, keys, strtoks)]
         if rng.random() < 0.6:
             op.append(v())
             if rng.random() < 0.4:
@@ -293,6 +296,28 @@ SHORTCUT_WITNESS = {
 }
 
 
+# fixed histories that always run (also through the model): the witnesses of the theorems
+FIXED = [
+    # contains_is_not_list_membership: a token that is not a name is not `in` the result
+    {"start": {"ctor": [{"list": [{"s": "a"}]}, None, True, True]},
+     "ops": [["contains", "a"], ["setname", "a", {"s": "v"}], ["contains", "a"], ["get", "a"], ["popname", "a", {"s": "d"}],
+             ["popname", "a", {"s": "d"}, "kw"], ["contains", "a"]]},
+    # the non-vacuity history of refines_history (exS / exOps in Props/C10.lean)
+    {"start": {"hist": [{"ctor": [{"list": [{"s": "a"}, {"s": "0"}, {"s": "b"}]}, None, True, True]},
+                        [["setname", "x", {"s": "a"}], ["setname", "x", {"s": "b"}], ["setname", "y", {"s": "0"}],
+                         ["iadd", {"ctor": [{"list": []}, "x", True, False]}]]]},
+     "ops": [["delint", -3], ["insert", -1, {"s": "i"}], ["setname", "y", {"s": "1"}], ["getname", "x"], ["getname", "y"],
+             ["popname", "q", {"s": "d"}], ["getslice", None, None, -2], ["delslice", 0, None, 2], ["pop"], ["popint", 7],
+             ["getattr", "nope"], ["items"]]},
+    # unknown_attr_empty / dunder
+    {"start": {"parse": ["names", "a 0"]}, "ops": [["getattr", "nope"], ["getattr", "__nope"], ["getattr", "x"]]},
+    # del / insert keep names (del_insert_keep_names), incl. positions equal to the index
+    {"start": {"parse": ["dupname", "a 0 b 1"]},
+     "ops": [["insert", 0, {"s": "n"}], ["getname", "x"], ["delint", 0], ["delint", 0], ["getname", "x"], ["items"],
+             ["delslice", None, None, -1], ["items"], ["getname", "y"]]},
+]
+
+
 def run(ctx):
     pp = common.import_pyparsing()
     PR = pp.ParseResults
@@ -330,7 +355,7 @@ def run(ctx):
     rng = ctx.subrng("hist")
     ncases = ctx.budget(2500, 30000)
     cases = [gen_history(rng, pp, maxlen, attr_ok) for _ in range(ncases)]
-    cases = [c for _, c in corpus_cases() if "signature" not in c] + cases
+    cases = FIXED + [c for _, c in corpus_cases() if "signature" not in c] + cases
     lines, impl, nbad = [], [], 0
     for c in cases:
         line, real, spec = eval_case(pp, c)
